@@ -164,6 +164,7 @@ class World:
         self._patched = []
         self._prints: List[str] = []
         self.force_writable = None              # callable(round, socks) -> set or None
+        self.always_writable = set()            # conn idx the scheduler never reports as not writable
         self.wprobe_hook = None
         self.shutting_down = False
         self.manager_crash: Optional[ManagerCrashed] = None
@@ -366,6 +367,8 @@ class World:
             blocked = {s.idx for s in cands if s.idx not in forced}
         elif num and cands and ch.flag("wr.some", 1, 2):
             for s in cands:
+                if s.idx in self.always_writable:
+                    continue
                 if ch.flag("wr.notwritable", num, den):
                     blocked.add(s.idx)
                     net.stats["notwritable"] += 1
